@@ -213,3 +213,53 @@ CHECKS = {
         "technique": "Lean 4 proof (mutual structural induction with a one-hole-context invariant) + AST differential correspondence",
     },
 }
+
+# ---- additions of the second half of the build round (appended to the texts above) ------------------------------------------
+EXTRA_TEXT = {
+    "C01": "Added in the second half of the round (Properties/C01Whole.lean): the WHOLE-docstring round trip for ReST is proved on the model - on an explicit decidable "
+           "domain InDomain, for any number of parameters, texts of any length and all flags, parseRest (emit ir) equals a predicted interface expIR ir (names, order, "
+           "descriptions incl. the appended default prose, types, typed defaults, header, return entry), with 16 counterexamples showing which domain clauses are essential; "
+           "the prediction is compared with what the REAL parse(emit ir) returns on every generated in-domain interface (the driver decides membership).",
+    "C03": "Added later (Properties/C03Iface.lean): for the four code formats class/pydantic/function/argparse the single-hop premise is PROVED from the C02 theorems over the "
+           "emitter/parser model (single), hence chain_iface / chains_commute_iface for chains of any length; the closure of the region under hops remains a hypothesis.",
+    "C08": "Added later (Properties/C08Whole.lean): on C01Whole.InDomain the ReST hop emit->parse of the model is at its fixpoint after ONE round for every number of parameters "
+           "and all flags (round2, hop_hop), hence for every further round (all_rounds), although the second text may differ from the first (inferred :type lines); two "
+           "negations show where the domain is needed.",
+    "C14": "Added later (Model/DocGN.lean, Properties/C14GN.lean): a character-level port of the Google and NumPy scan and parse phases with the same theorem for EVERY text "
+           "and both styles (parseGN_wf, parseDocstring_wf: distinct names proved from the insertion discipline, no leading asterisk), tied to the real _scan_phase / "
+           "_parse_phase / parse_docstring by exact comparison of results and exception classes (about 11 percent abstentions where literal_eval / float() / prose type "
+           "inference is not modelled).",
+    "C15": "Added later (Properties/C15Struct.lean): for structured docstrings of ANY size in ReST, Google and NumPy layout the walkers' index pair is computed exactly, hence "
+           "start <= last or -1 and the partition without an ordering hypothesis (C15_split_structured, idx_ordered), the exact parts and the conversion corollaries; the "
+           "statement is proved false for Raises-only docstrings; witnesses are evaluated in the kernel through a fuel twin proved equal to the model.",
+    "C13": "Added later (Model/SyncPropertiesMulti.lean): multi-pair calls of sync_properties as a fold over the pair list on trees that keep their stored locations; loop "
+           "theorems by induction over the pair list (every pair applied in order or nothing written; one hole per pair; frame chain), side conditions shown necessary on witnesses.",
+    "C19": "Added later: infer is modelled with the list of plain-name bases and positional argument names (infer_class_any_base: a class goes to the SQLAlchemy parser iff some "
+           "base is named Base); source entries are read independently with stdlib ast and infer is compared with the explicit --parse kind.",
+    "C11": "Added later: a third regenerated table (infinite iterators, every use of the re module, for-loops that grow their own iterable) with its registry theorem; pumped "
+           "inputs (long runs of one unit after scanner-relevant words) and a count of function transformations per doctrans application on deeply nested definitions.",
+    "C10": "Added later: the translator treats literal_eval results as set-capable and sorted(..., key=...) as order-preserving; inputs with collections written as displays.",
+}
+NOTE_OVERRIDE = {
+    "C01": "Partial: the ReST whole-docstring theorem is about the model, which omits the prose type inference parse_adhoc_doc_for_typ (descriptions on which the real function "
+           "answers are excluded from the tie, checked per case); string/None/code defaults are outside its domain; Google and NumPy round trips are emitter correspondence + "
+           "oracle (their parsers are modelled for C14 only). 26 known findings. Assumed: textwrap.fill, literal_eval, float/repr. Trusted: Lean kernel + 3 axioms, the harness.",
+    "C03": "Partial: for docstring / JSON-schema / SQLAlchemy hops the premises are observed on the real pipeline only; for the code formats the closure hypothesis (what the "
+           "docstring layer answers for the next docstring) is not proved. 13 known findings record where the unchanged code breaks a premise. Trusted: Lean kernel + 3 axioms, "
+           "the harness; the C02 model is tied to the code by the C02 check.",
+    "C08": "Partial: the whole-docstring fixpoint is proved for ReST on the model only (which omits prose type inference); the other ten formats are oracle + correspondence. "
+           "About 35 narrowly-signed known findings record where the unchanged code drifts (header whitespace, Google/NumPy latch and return entries, None defaults, announce "
+           "variants, multi-line Google descriptions, container types through argparse, ...). Trusted: Lean kernel + 3 axioms, the harness.",
+    "C14": "Partial: theorems cover the three docstring parsers' name discipline; 'type parses as a Python expression', 'description is a string' and 'every signature "
+           "parameter occurs exactly once' are oracle-only, as are the function/class/argparse/JSON-schema/SQLAlchemy parsers (generated, hand-written and emitter-produced "
+           "inputs). 23 known findings. Trusted: Lean kernel + 3 axioms, the harness.",
+    "C15": "Partial: outside the structured domain (header lines that start with a section keyword, token words in the footer, ...) the ordering is observed only; the "
+           "parse-side absorption clause and 'header lines survive as lines of the converted docstring' are checked on the real code only. 15 known findings. Trusted: Lean "
+           "kernel + 3 axioms, the harness.",
+    "C10": "Partial: the theorem covers merge_params and the syntactic site table (one hop of name tracking); determinism of every other function is observed, not proved, at "
+           "process level. 1 known finding (defaults that are set displays are rendered in hash order). Trusted: Lean kernel + 3 axioms, translator, differential harness.",
+}
+for _pid, _t in EXTRA_TEXT.items():
+    CHECKS[_pid]["text"] = CHECKS[_pid]["text"].rstrip() + " " + _t
+for _pid, _t in NOTE_OVERRIDE.items():
+    CHECKS[_pid]["note"] = _t
